@@ -461,11 +461,14 @@ class AdfFile:
                 want_ptr("%s.end->%s" % (tagn, lab), "pointer", p + 4, b, o)
         for c in self.children:
             tagn = "child@%d" % c["pos"]
+            # node kinds the mid-level library reads with a reader that calls itself: their cycles are never sampled away
+            lbl = d[c["target"] + nf[2][0]:c["target"] + nf[2][0] + 32].rstrip(b" ") if 0 <= c["target"] < len(d) else b""
+            ccls = "cycle-core" if lbl in (b"Family_t", b"UserDefinedData_t") else "cycle"
             for lab, b, o in self.ptr_classes(c["pos"] + 32, c["parent"]):
-                want_ptr("%s.location->%s" % (tagn, lab), "cycle" if lab in ("ancestor", "root") else "pointer", c["pos"] + 32, b, o)
+                want_ptr("%s.location->%s" % (tagn, lab), ccls if lab in ("ancestor", "root") else "pointer", c["pos"] + 32, b, o)
             gp = parent_of.get(c["parent"])
             if gp is not None:
-                want_ptr("%s.location->grandparent" % tagn, "cycle", c["pos"] + 32, gp // 4096, gp % 4096)
+                want_ptr("%s.location->grandparent" % tagn, ccls, c["pos"] + 32, gp // 4096, gp % 4096)
             s = d[c["pos"]:c["pos"] + 32]
             for lab, v in [("blank", b" " * 32), ("slash", b"x/y" + s[3:]), ("nul-first", b"\0" + s[1:]), ("full32", b"W" * 32)]:
                 M.append(("%s.name=%s" % (tagn, lab), "string", [(c["pos"], v)]))
